@@ -137,6 +137,10 @@ pub trait Scenario: Sync {
     fn classify_death(&self, _how: &str, _workload: &Value, _property: &str) -> Option<Violation> {
         None
     }
+    /// The child died on purpose (crash/signal scenarios): examine what it left in `sandbox` and produce the report.
+    fn examine_death(&self, _how: &str, _workload: &Value, _sandbox: &Path, _property: &str, _steps_at_death: u64) -> Option<Report> {
+        None
+    }
     fn cpu_limit_s(&self, _property: &str) -> u64 {
         20
     }
@@ -359,6 +363,17 @@ pub fn run_one(spec: &RunSpec, shm: &Shm) -> (ChildEnd, Vec<u16>) {
                 },
                 Err(e) => ChildEnd::HarnessError(format!("unparsable result: {e}")),
             }
+        } else if let Some(mut r) = if libc::WIFSIGNALED(status) { spec.scenario.examine_death(&format!("signal{}", libc::WTERMSIG(status)), spec.workload, &sandbox, spec.property, *shm.hdr_u64(2)) } else { None } {
+            r.n_decisions = decisions.len() as u64;
+            r.decisions = decisions.clone();
+            if r.sched_hash == 0 {
+                let mut h = Fnv::default();
+                for d in &decisions {
+                    h.write(&d.to_le_bytes());
+                }
+                r.sched_hash = h.0;
+            }
+            ChildEnd::Report(r)
         } else if libc::WIFSIGNALED(status) {
             let sig = libc::WTERMSIG(status);
             let name = match sig {
@@ -869,6 +884,12 @@ pub fn check(scn: &dyn Scenario, property: &str, tier: Tier, base_seed: u64, job
             if exit == 0 {
                 exit = 2;
             }
+        }
+    }
+    // every listed finding is named on every run, reached by this run's sample or not
+    for k in &known {
+        if !known_hit.contains(sig_class(&k.signature)) {
+            println!("KNOWN-FINDING: property={property} {} [{}] (listed; not reached by this run's sample)", k.what, k.signature);
         }
     }
     if !agg.harness_errors.is_empty() {
